@@ -87,7 +87,7 @@ func factsC14Entry() {
 			}
 			if name != "" {
 				body := show(fl.Body)
-				retWrites = strings.Contains(body, "stream.Read("+name+")") && strings.Contains(body, "localConn.WriteTo("+name+"[:n], proxyAddr)")
+				retWrites = strings.Contains(body, "stream.Read("+name+")") && regexp.MustCompile(`localConn\.WriteTo\(`+regexp.QuoteMeta(name)+`\[:n\], \w+\)`).MatchString(body)
 			}
 			return false
 		})
